@@ -278,12 +278,44 @@ def velocity_onsets(ctx, rule='VEL/onsets-only'):
       state.append(s_)
   emits = [s_ for s_ in U.walk_stmts(loop) if isinstance(s_, ast.Expr) and 'PerformanceEvent.VELOCITY' in norm_text(s_)]
   if len(state) >= 1 and len(emits) >= 1:
+    # what the third component is for a note end / a note start: read off the producers (a tuple that begins with the note's
+    # quantized end / start step ends with the marker - a boolean in one spelling, the event type in another)
+    from sa import scenario, fold
+    marks = {}
+    for t in ast.walk(fi.node):
+      if isinstance(t, ast.Tuple) and len(t.elts) >= 2 and isinstance(t.elts[0], ast.Attribute) and t.elts[0].attr in ('quantized_end_step', 'quantized_start_step'):
+        marks[t.elts[0].attr] = t.elts[-1]
+    consts = {}
+    try:
+      cc = fold.Folder(ctx.P, ctx.S).class_consts(ctx.cls('performance_lib:PerformanceEvent'))
+      consts = dict(('PerformanceEvent.%s' % k, nf.rat(E(repr(v)))) for k, v in cc.items() if isinstance(v, int) and not isinstance(v, bool))
+    except Exception:      # pylint: disable=broad-except
+      consts = {}
+
+    def mark_value(e):
+      if isinstance(e, ast.Constant) and isinstance(e.value, bool):
+        return nf.rat(E('1' if e.value else '0'))
+      return consts.get(norm_text(e))
+    offv = mark_value(marks['quantized_end_step']) if 'quantized_end_step' in marks else None
     for s_ in state + emits:
-      conds = U.path_conditions(fi.node, s_, stop_at=loop)
-      onset = any(not pol and norm_text(t) == off for (t, pol) in conds)
-      ctx.ob(rule, fi, s_, onset, 'executed for onsets only' if onset else
-             '`%s` can execute for a note-off (no condition on the path to it excludes %s): the tracked velocity bin then follows a note that has ended' % (norm_text(s_)[:70], off),
-             construct='%s only for onsets' % ('bin update' if s_ in state else 'VELOCITY event'), definite=True)
+      conds = [(t, pol) for (t, pol) in U.path_conditions(fi.node, s_, stop_at=loop) if any(isinstance(x, ast.Name) and x.id == off for x in ast.walk(t))]
+      cons = '%s only for onsets' % ('bin update' if s_ in state else 'VELOCITY event')
+      if offv is None:
+        why = 'cannot classify: the marker of a note end in the event tuples was not identified'
+        ctx.ob(rule, fi, s_, False, why, construct=cons, unknown=why)
+        continue
+      sub = dict(consts)
+      sub[off] = offv
+      r = scenario.tv_all(conds, sub) if conds else True
+      if r is False:
+        ctx.ob(rule, fi, s_, True, 'unreachable for a note end (%s = %s)' % (off, norm_text(marks['quantized_end_step'])), construct=cons)
+      elif r is True:
+        ctx.ob(rule, fi, s_, False, '`%s` can execute for a note-off (%s): the tracked velocity bin then follows a note that has ended' % (
+            norm_text(s_)[:70], 'no condition on the path to it reads %s' % off if not conds else 'its conditions hold for %s = %s' % (off, norm_text(marks['quantized_end_step']))),
+               construct=cons, definite=True)
+      else:
+        why = 'cannot classify: the conditions on %s before `%s` cannot be evaluated for a note end' % (off, norm_text(s_)[:50])
+        ctx.ob(rule, fi, s_, False, why, construct=cons, unknown=why)
 
 
 def shifts(ctx):
